@@ -494,12 +494,14 @@ Proof. eapply run_SInv; [apply SInv_init|apply ex_history_wf|apply ex_sv_run]. Q
 Example ex_ended : ~ has_id ex_sv 1 /\ ~ In 1%N (sv_serverSessions ex_sv).
 Proof. split; [apply has_id_b_false; vm_compute; reflexivity|vm_compute; tauto]. Qed.
 
+Definition rcpts_of (o : outcome) : option (list (list N)) :=
+  match o with OOk _ out => Some (map o_rcpt out) | _ => None end.
+Definition state_of (o : outcome) : server := match o with OOk sv _ => sv | _ => init_server "" end.
+Definition ex_sv11 : server := state_of (apply_entry ex_env ex_sv (EMessage 11 11000 4 25 "" "PRIVMSG Foo :are you there")).
 Example ex_later_outputs :
-  exists sv1 out1 sv2 out2,
-    apply_entry ex_env ex_sv (EMessage 11 11000 4 25 "" "PRIVMSG Foo :are you there") = OOk sv1 out1 /\
-    apply_entry ex_env sv1 (EMessage 12 12000 4 26 "" "PRIVMSG #chan :anyone") = OOk sv2 out2 /\
-    map o_rcpt out1 = [[4%N]] /\ map o_rcpt out2 = [[]].
-Proof. eexists _, _, _, _. split; [vm_compute; reflexivity|]. split; [vm_compute; reflexivity|]. split; vm_compute; reflexivity. Qed.
+  rcpts_of (apply_entry ex_env ex_sv (EMessage 11 11000 4 25 "" "PRIVMSG Foo :are you there")) = Some [[4%N]] /\
+  rcpts_of (apply_entry ex_env ex_sv11 (EMessage 12 12000 4 26 "" "PRIVMSG #chan :anyone")) = Some [[]].
+Proof. split; vm_compute; reflexivity. Qed.
 
 Example ex_ended_silent sv1 out1 :
   apply_entry ex_env ex_sv (EMessage 11 11000 4 25 "" "PRIVMSG Foo :are you there") = OOk sv1 out1 ->
@@ -520,6 +522,16 @@ Proof.
   apply wf_history_b_sound. vm_compute. reflexivity.
 Qed.
 Example ex_join_step :
-  exists sv' out, apply_entry ex_env ex_sv7 (EMessage 8 8000 4 23 "" "JOIN #chan") = OOk sv' out /\
-    map o_rcpt out = [[1%N; 4%N]; []; [4%N]; [4%N]; [4%N]; [4%N]].
-Proof. eexists _, _. split; vm_compute; reflexivity. Qed.
+  rcpts_of (apply_entry ex_env ex_sv7 (EMessage 8 8000 4 23 "" "JOIN #chan")) =
+  Some [[1%N; 4%N]; []; [4%N]; [4%N]; [4%N]; [4%N]].
+Proof. vm_compute. reflexivity. Qed.
+
+Print Assumptions outputs_sites.
+Print Assumptions recipients_by_kind.
+Print Assumptions recipients_exist.
+Print Assumptions numeric_addressing.
+Print Assumptions error_addressing.
+Print Assumptions prefix_identity.
+Print Assumptions prefix_invariant.
+Print Assumptions ended_session_silent.
+Print Assumptions ended_session_silent_from_init.
